@@ -345,8 +345,55 @@ def assemble(names, uid="0"):
     return src.replace("@U@", uid)
 
 
+# theme -> (fragment-name prefixes, transformations the fragments are
+# written for)
+THEMES = {
+    "reduction": (("red_",), [
+        "Sum2LoopTrans", "Product2LoopTrans", "Maxval2LoopTrans",
+        "Minval2LoopTrans", "ArrayAssignment2LoopsTrans",
+        "Reference2ArrayRangeTrans", "AllArrayAccess2LoopTrans"]),
+    "assignment": (("asg_",), [
+        "ArrayAssignment2LoopsTrans", "AllArrayAccess2LoopTrans",
+        "ArrayAccess2LoopTrans", "Matmul2CodeTrans", "DotProduct2CodeTrans",
+        "Max2CodeTrans", "Min2CodeTrans", "Abs2CodeTrans", "Sign2CodeTrans",
+        "Reference2ArrayRangeTrans", "AssignmentTrans", "ACCKernelsTrans",
+        "HoistLocalArraysTrans"]),
+    "loop": (("loop_", "nest_", "twin_"), [
+        "ChunkLoopTrans", "LoopTiling2DTrans", "LoopSwapTrans",
+        "LoopFuseTrans", "HoistTrans", "HoistLoopBoundExprTrans",
+        "ReplaceInductionVariablesTrans", "OMPLoopTrans",
+        "OMPParallelLoopTrans", "ACCLoopTrans", "OMPTaskloopTrans",
+        "OMPTaskTrans", "ACCKernelsTrans", "OMPTargetTrans",
+        "OMPParallelTrans", "ColourTrans", "MoveTrans", "OMPTaskwaitTrans",
+        "ACCParallelTrans", "OMPSingleTrans"]),
+    "call": (("call_", "loop_call", "red_in_call"), [
+        "InlineTrans", "OMPTaskTrans", "ACCRoutineTrans",
+        "OMPDeclareTargetTrans", "HoistLocalArraysTrans",
+        "KernelModuleInlineTrans", "FoldConditionalReturnExpressionsTrans",
+        "ACCKernelsTrans", "ACCParallelTrans", "CreateNemoPSyTrans",
+        "CreateNemoInvokeScheduleTrans", "AlgTrans", "RaisePSyIR2AlgTrans",
+        "OMPTargetTrans"]),
+    "control": (("if_", "where_", "select", "print", "modvar", "asg_aut",
+                 "loop_while", "loop_where"), [
+        "FoldConditionalReturnExpressionsTrans", "ACCKernelsTrans",
+        "ACCDataTrans", "ACCEnterDataTrans", "ACCUpdateTrans",
+        "OMPParallelTrans", "OMPMasterTrans", "OMPSingleTrans",
+        "ProfileTrans", "ExtractTrans", "ReadOnlyVerifyTrans",
+        "NanTestTrans", "PSyDataTrans", "HoistLocalArraysTrans",
+        "MoveTrans", "ACCRoutineTrans"]),
+}
+
+
 @st.composite
 def tuned_programs(draw):
-    names = draw(st.lists(st.sampled_from([n for n, _ in FRAGMENTS]),
-                          min_size=2, max_size=6, unique=True))
-    return names, assemble(names)
+    """(theme, fragment names, family of transformations, source)"""
+    theme = draw(st.sampled_from(sorted(THEMES)))
+    prefixes, family = THEMES[theme]
+    themed = [n for n, _ in FRAGMENTS if n.startswith(prefixes)]
+    names = draw(st.lists(st.sampled_from(themed), min_size=2,
+                          max_size=min(5, len(themed)), unique=True))
+    if draw(st.booleans()):
+        other = [n for n, _ in FRAGMENTS if n not in names]
+        names = names + [draw(st.sampled_from(other))]
+        names = list(draw(st.permutations(names)))
+    return theme, names, family, assemble(names)
